@@ -32,6 +32,8 @@ type C07Case struct {
 	// Again: the very same request was presented that many times before (a reload of the redirect URL, a resubmitted form);
 	// a conformant request stays one while its validity window is open.
 	Again int `json:"presented_before,omitempty"`
+	// HoistNS (attribute queries): the namespace prefixes the query uses are declared on the SOAP envelope, not on the query
+	HoistNS bool `json:"namespaces_on_envelope,omitempty"`
 }
 
 func genC07Case(t *rapid.T) C07Case {
@@ -190,6 +192,7 @@ func genC07Case(t *rapid.T) C07Case {
 		}
 		c.Query = q
 		c.Soap = rapid.SampledFrom([]string{"soap", "soapenv", "S", "env"}).Draw(t, "soapprefix")
+		c.HoistNS = rapid.Bool().Draw(t, "hoistns")
 	}
 	c.SSO = s
 	return c
@@ -229,6 +232,9 @@ func c07Render(c C07Case, now time.Time) (obs.HTTPReq, error) {
 	}
 	if c.Kind == "attrquery" {
 		tree = spsim.Envelope(tree, c.Soap)
+		if c.HoistNS {
+			spsim.HoistNS(tree)
+		}
 	}
 	x := xt.Write(tree, s.Style.W)
 	if c.BOM {
